@@ -17,7 +17,7 @@
    about them.
 
    Time: `wall_*` are SystemTime readings in nanoseconds since the epoch (one taken inside
-   from_x509 when days_until_expiry is computed, one at the expiry check of reload), `mono` is the
+   from_x509 when days_until_expiry is computed, one at the expiry check of reload), `cr_mono` is the
    Instant stored in last_reload. *)
 From Coq Require Import List NArith ZArith Bool.
 From AnyTLS Require Import Generated.
@@ -25,15 +25,15 @@ Import ListNotations.
 Open Scope Z_scope.
 
 (* ---- cert_analyzer.rs: from_x509 day arithmetic, is_expired ---- *)
-Definition ns_per_sec : Z := 1000000000.
+Definition cr_ns_per_sec : Z := 1000000000.
 
 (* days_until_expiry: Duration::as_secs() / 86400, negated when not_after is in the past *)
-Definition days_until (not_after now : Z) : Z :=
+Definition cr_days_until (not_after now : Z) : Z :=
   if now <=? not_after
-  then ((not_after - now) / ns_per_sec) / cert_secs_per_day
-  else - (((now - not_after) / ns_per_sec) / cert_secs_per_day).
+  then ((not_after - now) / cr_ns_per_sec) / cert_secs_per_day
+  else - (((now - not_after) / cr_ns_per_sec) / cert_secs_per_day).
 
-Definition is_expired_days (days : Z) : bool := days <? cert_expired_below_days.
+Definition cr_is_expired_days (days : Z) : bool := days <? cert_expired_below_days.
 
 Record certinfo (ident : Type) : Type :=
   { ci_ident : ident;        (* subject, issuer, serial, SANs, algorithms: what operators are shown *)
@@ -41,10 +41,10 @@ Record certinfo (ident : Type) : Type :=
     ci_days : Z }.           (* days_until_expiry, frozen at analysis time *)
 Arguments ci_ident {ident}. Arguments ci_not_after {ident}. Arguments ci_days {ident}.
 
-Inductive err := EIo | ETls.
-Inductive outcome := ROk | RErr (e : err) | RPanic.
+Inductive cr_err := CrIo | CrTls.
+Inductive cr_outcome := CrOk | CrErr (e : cr_err) | CrPanic.
 
-Definition u64_max : N := 18446744073709551615%N.
+Definition cr_u64_max : N := 18446744073709551615%N.
 
 Section CertReload.
   Variables blob chain pkey ident : Type.
@@ -54,41 +54,41 @@ Section CertReload.
   Variable parse_info  : blob -> option (ident * Z). (* from_pem_bytes up to the clock: identity, not_after *)
   Variable check_expiry : bool.                      (* CertReloaderConfig::check_expiry *)
 
-  Record reads := { rd_cert : option blob; rd_key : option blob; rd_cert2 : option blob }.
-  Record clock := { wall_an : Z; wall_chk : Z; mono : Z }.
+  Record cr_reads := { rd_cert : option blob; rd_key : option blob; rd_cert2 : option blob }.
+  Record cr_clock := { cr_wall_an : Z; cr_wall_chk : Z; cr_mono : Z }.
 
   (* what an acceptor was built from *)
-  Record loaded := { l_cert : blob; l_key : blob; l_chain : chain; l_pkey : pkey }.
+  Record cr_loaded := { l_cert : blob; l_key : blob; l_chain : chain; l_pkey : pkey }.
 
-  Record state :=
-    { active : loaded;                       (* tls_acceptor *)
-      info   : option (certinfo ident);      (* cert_info *)
-      count  : N;                            (* reload_count *)
-      last   : option Z }.                   (* last_reload *)
+  Record cr_state :=
+    { cr_active : cr_loaded;                       (* tls_acceptor *)
+      cr_info   : option (certinfo ident);      (* cert_info *)
+      cr_count  : N;                            (* reload_count *)
+      cr_last   : option Z }.                   (* last_reload *)
 
-  Definition analyze (w : Z) (b : blob) : option (certinfo ident) :=
+  Definition cr_analyze (w : Z) (b : blob) : option (certinfo ident) :=
     match parse_info b with
     | None => None
-    | Some (id, na) => Some {| ci_ident := id; ci_not_after := na; ci_days := days_until na w |}
+    | Some (id, na) => Some {| ci_ident := id; ci_not_after := na; ci_days := cr_days_until na w |}
     end.
 
   (* load_pair *)
-  Definition load (rd : reads) (w : Z) : (loaded * option (certinfo ident)) + err :=
+  Definition cr_load (rd : cr_reads) (w : Z) : (cr_loaded * option (certinfo ident)) + cr_err :=
     match rd_cert rd with
-    | None => inr EIo
+    | None => inr CrIo
     | Some cb =>
       match parse_certs cb with
-      | None => inr ETls
+      | None => inr CrTls
       | Some ch =>
         match rd_key rd with
-        | None => inr EIo
+        | None => inr CrIo
         | Some kb =>
           match parse_key kb with
-          | None => inr ETls
+          | None => inr CrTls
           | Some k =>
             if pair_ok ch k
-            then inl ({| l_cert := cb; l_key := kb; l_chain := ch; l_pkey := k |}, analyze w cb)
-            else inr ETls
+            then inl ({| l_cert := cb; l_key := kb; l_chain := ch; l_pkey := k |}, cr_analyze w cb)
+            else inr CrTls
           end
         end
       end
@@ -96,78 +96,78 @@ Section CertReload.
 
   (* CertReloader::new: the analysis result is kept with `.ok()`; an expired initial certificate is
      only logged (side lemma cert_new_accepts_expired) *)
-  Definition new_reloader (rd : reads) (c : clock) : state + err :=
-    match load rd (wall_an c) with
+  Definition cr_new (rd : cr_reads) (c : cr_clock) : cr_state + cr_err :=
+    match cr_load rd (cr_wall_an c) with
     | inr e => inr e
-    | inl (l, oi) => inl {| active := l; info := oi; count := 0%N; last := None |}
+    | inl (l, oi) => inl {| cr_active := l; cr_info := oi; cr_count := 0%N; cr_last := None |}
     end.
 
   (* the condition under `if self.config.check_expiry`, assembled from what the translator found there *)
-  Definition expired_at_reload (c : clock) (i : certinfo ident) : bool :=
-    (cert_reload_expiry_uses_is_expired && is_expired_days (ci_days i))
-    || (cert_reload_expiry_compares_not_after && (ci_not_after i <? wall_chk c)).
+  Definition cr_expired_at_reload (c : cr_clock) (i : certinfo ident) : bool :=
+    (cert_reload_expiry_uses_is_expired && cr_is_expired_days (ci_days i))
+    || (cert_reload_expiry_compares_not_after && (ci_not_after i <? cr_wall_chk c)).
 
   (* CertReloader::reload. The four cells are written only after the last error exit; the counter
      increment is a checked `+= 1` on u64 (debug profile): at u64::MAX it panics after the first two
      cells were written. *)
-  Definition reload (st : state) (rd : reads) (c : clock) : state * outcome :=
-    match load rd (wall_an c) with
-    | inr e => (st, RErr e)
-    | inl (_, None) => (st, RErr ETls)
+  Definition cr_reload (st : cr_state) (rd : cr_reads) (c : cr_clock) : cr_state * cr_outcome :=
+    match cr_load rd (cr_wall_an c) with
+    | inr e => (st, CrErr e)
+    | inl (_, None) => (st, CrErr CrTls)
     | inl (l, Some i) =>
-      if check_expiry && expired_at_reload c i then (st, RErr ETls)
-      else if (count st =? u64_max)%N
-      then ({| active := l; info := Some i; count := count st; last := last st |}, RPanic)
-      else ({| active := l; info := Some i; count := (count st + 1)%N; last := Some (mono c) |}, ROk)
+      if check_expiry && cr_expired_at_reload c i then (st, CrErr CrTls)
+      else if (cr_count st =? cr_u64_max)%N
+      then ({| cr_active := l; cr_info := Some i; cr_count := cr_count st; cr_last := cr_last st |}, CrPanic)
+      else ({| cr_active := l; cr_info := Some i; cr_count := (cr_count st + 1)%N; cr_last := Some (cr_mono c) |}, CrOk)
     end.
 
-  Fixpoint run_state (st : state) (evs : list (reads * clock)) : state :=
+  Fixpoint cr_run_state (st : cr_state) (evs : list (cr_reads * cr_clock)) : cr_state :=
     match evs with
     | [] => st
-    | (rd, c) :: evs' => run_state (fst (reload st rd c)) evs'
+    | (rd, c) :: evs' => cr_run_state (fst (cr_reload st rd c)) evs'
     end.
 
-  Fixpoint outcomes (st : state) (evs : list (reads * clock)) : list outcome :=
+  Fixpoint cr_outcomes (st : cr_state) (evs : list (cr_reads * cr_clock)) : list cr_outcome :=
     match evs with
     | [] => []
-    | (rd, c) :: evs' => snd (reload st rd c) :: outcomes (fst (reload st rd c)) evs'
+    | (rd, c) :: evs' => snd (cr_reload st rd c) :: cr_outcomes (fst (cr_reload st rd c)) evs'
     end.
 
   (* ---- the server around it: server.rs `listen` clones the current acceptor per accepted
      connection; an established session keeps the configuration it was accepted with ---- *)
-  Inductive op :=
-  | OReload (rd : reads) (c : clock)
-  | OAccept          (* accept(): snapshot of the acceptor; the handshake happens later *)
-  | OEstablish.      (* accept() + handshake now: an established session *)
+  Inductive cr_op :=
+  | CrReload (rd : cr_reads) (c : cr_clock)
+  | CrAccept          (* accept(): snapshot of the acceptor; the handshake happens later *)
+  | CrEstablish.      (* accept() + handshake now: an established session *)
 
-  Record sys := { rl : state; conns : list loaded; sess : list loaded }.
+  Record cr_sys := { cr_rl : cr_state; cr_conns : list cr_loaded; cr_sess : list cr_loaded }.
 
-  Definition step (s : sys) (o : op) : sys :=
+  Definition cr_step (s : cr_sys) (o : cr_op) : cr_sys :=
     match o with
-    | OReload rd c => {| rl := fst (reload (rl s) rd c); conns := conns s; sess := sess s |}
-    | OAccept => {| rl := rl s; conns := conns s ++ [active (rl s)]; sess := sess s |}
-    | OEstablish => {| rl := rl s; conns := conns s; sess := sess s ++ [active (rl s)] |}
+    | CrReload rd c => {| cr_rl := fst (cr_reload (cr_rl s) rd c); cr_conns := cr_conns s; cr_sess := cr_sess s |}
+    | CrAccept => {| cr_rl := cr_rl s; cr_conns := cr_conns s ++ [cr_active (cr_rl s)]; cr_sess := cr_sess s |}
+    | CrEstablish => {| cr_rl := cr_rl s; cr_conns := cr_conns s; cr_sess := cr_sess s ++ [cr_active (cr_rl s)] |}
     end.
 
-  Fixpoint run (s : sys) (ops : list op) : sys :=
+  Fixpoint cr_run (s : cr_sys) (ops : list cr_op) : cr_sys :=
     match ops with
     | [] => s
-    | o :: ops' => run (step s o) ops'
+    | o :: ops' => cr_run (cr_step s o) ops'
     end.
 
   (* the chain presented by the handshake of accepted connection j / seen by established session j *)
-  Definition served_conn (s : sys) (j : nat) : option chain := option_map l_chain (nth_error (conns s) j).
-  Definition served_sess (s : sys) (j : nat) : option chain := option_map l_chain (nth_error (sess s) j).
+  Definition cr_served_conn (s : cr_sys) (j : nat) : option chain := option_map l_chain (nth_error (cr_conns s) j).
+  Definition cr_served_sess (s : cr_sys) (j : nat) : option chain := option_map l_chain (nth_error (cr_sess s) j).
 End CertReload.
 
 Arguments rd_cert {blob}. Arguments rd_key {blob}. Arguments rd_cert2 {blob}.
-Arguments Build_reads {blob}.
+Arguments Build_cr_reads {blob}.
 Arguments l_cert {blob chain pkey}. Arguments l_key {blob chain pkey}.
 Arguments l_chain {blob chain pkey}. Arguments l_pkey {blob chain pkey}.
-Arguments Build_loaded {blob chain pkey}.
-Arguments active {blob chain pkey ident}. Arguments info {blob chain pkey ident}.
-Arguments count {blob chain pkey ident}. Arguments last {blob chain pkey ident}.
-Arguments Build_state {blob chain pkey ident}.
-Arguments OReload {blob}. Arguments OAccept {blob}. Arguments OEstablish {blob}.
-Arguments rl {blob chain pkey ident}. Arguments conns {blob chain pkey ident}. Arguments sess {blob chain pkey ident}.
-Arguments Build_sys {blob chain pkey ident}.
+Arguments Build_cr_loaded {blob chain pkey}.
+Arguments cr_active {blob chain pkey ident}. Arguments cr_info {blob chain pkey ident}.
+Arguments cr_count {blob chain pkey ident}. Arguments cr_last {blob chain pkey ident}.
+Arguments Build_cr_state {blob chain pkey ident}.
+Arguments CrReload {blob}. Arguments CrAccept {blob}. Arguments CrEstablish {blob}.
+Arguments cr_rl {blob chain pkey ident}. Arguments cr_conns {blob chain pkey ident}. Arguments cr_sess {blob chain pkey ident}.
+Arguments Build_cr_sys {blob chain pkey ident}.
